@@ -33,10 +33,10 @@ geometry of ``mc.oracles.geometry``:
   ``define_mpl_kwargs``).
 
 BAND.  The design note says "1 %"; that is an upper bound for the guard, the
-derived tolerance is far smaller: matplotlib's 8-segment cubic Bezier circle
-deviates by <= 2.8e-4 of the radius (an affine image for ellipses, so the
-same in the normalised radius), flattening each 45 degree arc with 64 points
-adds a sagitta of 2e-5, rectangles and polygons are exact, arithmetic on
+derived tolerance is far smaller: a cubic Bezier circle deviates by <= 2.8e-4
+of the radius with 4 segments (matplotlib's 8-segment unit circle: 4e-6
+measured; an affine image for ellipses, so the same in the normalised
+radius), flattening each 45 degree arc with 64 points adds a sagitta of 2e-5, rectangles and polygons are exact, arithmetic on
 coordinates <= 1e4 contributes 1e-11.  BAND = 5e-3 is > 15x the sum and keeps
 the query rings at 0.99 and 1.01 of the size (with 1 % they would sit exactly
 on the guard and be dropped, leaving 0.9/1.1 as the closest rings).
@@ -156,6 +156,8 @@ TEXT_KW = {
     'color': {'color': 'blue'},
     'fontsize': {'fontsize': 20},
     'size': {'size': 20},
+    'fontweight': {'fontweight': 'light'},
+    'weight': {'weight': 'light'},
     'rotation': {'rotation': 45},
 }
 
@@ -308,15 +310,22 @@ def winding(subs, qx, qy):
     """Non-zero-rule winding number of every query point (sum over all closed
     subpaths of the signed crossings of the ray y = qy, x > qx)."""
     wn = np.zeros(qx.shape, np.int64)
-    X = qx[:, None]
     Y = qy[:, None]
     for P in subs:
-        ax, ay = P[:, 0][None, :], P[:, 1][None, :]
-        bx, by = np.roll(P[:, 0], -1)[None, :], np.roll(P[:, 1], -1)[None, :]
-        left = (bx - ax) * (Y - ay) - (X - ax) * (by - ay)
-        up = (ay <= Y) & (by > Y) & (left > 0)
-        dn = (ay > Y) & (by <= Y) & (left < 0)
-        wn += up.sum(axis=1) - dn.sum(axis=1)
+        ax, ay = P[:, 0], P[:, 1]
+        # edge k runs from vertex k (a) to vertex k+1 (b), the last one closes the subpath
+        a_le = ay[None, :] <= Y                      # (queries, edges): a on or below the ray's line
+        b_le = np.concatenate((a_le[:, 1:], a_le[:, :1]), axis=1)
+        qi, ei = np.nonzero(a_le != b_le)            # edges that cross the line y = qy (half-open rule)
+        if qi.size == 0:
+            continue
+        ej = ei + 1
+        ej[ej == len(ax)] = 0
+        # > 0 when the query lies to the left of the directed edge a -> b
+        left = (ax[ej] - ax[ei]) * (qy[qi] - ay[ei]) - (qx[qi] - ax[ei]) * (ay[ej] - ay[ei])
+        upward = a_le[qi, ei]                        # a <= y < b
+        contrib = np.where(upward & (left > 0), 1, 0) - np.where(~upward & (left < 0), 1, 0)
+        wn += np.bincount(qi, weights=contrib, minlength=qx.size).astype(np.int64)
     return wn
 
 
@@ -396,7 +405,7 @@ def bbox_spec(b):
 
 # ------------------------------------------------ expected attributes -------
 _ALIAS = {'ec': 'edgecolor', 'lw': 'linewidth', 'fc': 'facecolor', 'mec': 'markeredgecolor',
-          'ms': 'markersize', 'mew': 'markeredgewidth', 'size': 'fontsize'}
+          'ms': 'markersize', 'mew': 'markeredgewidth', 'size': 'fontsize', 'weight': 'fontweight'}
 
 
 def _expect(kind, vis, kw):
@@ -523,7 +532,7 @@ def check_outline(res, case, artist, spec, origin, Q):
         k = int(np.flatnonzero(filled)[0])
         res.violation(ID, 'annulus_hole_filled', case,
                       f'{int(filled.sum())} of {int(hole.sum())} positions inside the inner shape are inside the patch under the '
-                      f'non-zero winding rule (first: data ({dx[k]!r},{dy[k]!r}) winding {int(wn[k])}): the hole is filled',
+                      f'non-zero winding rule (first: data ({float(dx[k])!r},{float(dy[k])!r}) winding {int(wn[k])}): the hole is filled',
                       0, int(wn[k]))
     bad = (inside != ins) & ~filled
     if bad.any():
@@ -531,7 +540,7 @@ def check_outline(res, case, artist, spec, origin, Q):
         k = int(np.flatnonzero(bad)[0])
         res.violation(ID, 'outline_mismatch', case,
                       f'{int(bad.sum())} of {int(ins.size)} query positions: patch membership (winding != 0) differs from the region; '
-                      f'first: data ({dx[k]!r},{dy[k]!r}) = region ({rx[k]!r},{ry[k]!r}) - origin: winding {int(wn[k])}, region contains: {bool(ins[k])}',
+                      f'first: data ({float(dx[k])!r},{float(dy[k])!r}) = region ({float(rx[k])!r},{float(ry[k])!r}) - origin: winding {int(wn[k])}, region contains: {bool(ins[k])}',
                       bool(ins[k]), int(wn[k]))
     if spec['cls'] in G.ANNULI:
         if len(subs) != 2:
@@ -600,7 +609,7 @@ def check_line(res, case, artist, spec, origin, kw):
     s = -(P[:, 0] - sx) * uy + (P[:, 1] - sy) * ux         # across
     problems = []
     if abs(t.min()) > tol or abs(t.max() - L) > tol:
-        problems.append(f'extent along start->end is [{t.min()!r}, {t.max()!r}], expected [0, {L!r}]')
+        problems.append(f'extent along start->end is [{float(t.min())!r}, {float(t.max())!r}], expected [0, {L!r}]')
     tip = np.flatnonzero(t >= t.max() - tol)
     tipxy = P[tip]
     if np.ptp(tipxy[:, 0]) > tol or np.ptp(tipxy[:, 1]) > tol or abs(s[tip[0]]) > tol:
@@ -609,11 +618,11 @@ def check_line(res, case, artist, spec, origin, kw):
     if abs(s[tail].max() + s[tail].min()) > 2 * tol:
         problems.append(f'the tail is not centred on start-origin (offsets across {s[tail].tolist()})')
     if abs(s.max() + s.min()) > 2 * tol:
-        problems.append(f'the arrow is not symmetric about the start->end axis (across extent [{s.min()!r}, {s.max()!r}])')
+        problems.append(f'the arrow is not symmetric about the start->end axis (across extent [{float(s.min())!r}, {float(s.max())!r}])')
     if 'width' in kw:
         # only when the caller chose the width is the lateral extent known: |across| <= width / 2
         if np.abs(s).max() > 0.5 * kw['width'] + tol:
-            problems.append(f'vertices up to {np.abs(s).max()!r} away from the axis, more than width/2 = {0.5 * kw["width"]!r}')
+            problems.append(f'vertices up to {float(np.abs(s).max())!r} away from the axis, more than width/2 = {0.5 * kw["width"]!r}')
     if problems:
         res.violation(ID, 'line_axis', case, 'arrow does not run from start-origin to end-origin: ' + '; '.join(problems),
                       [[sx, sy], [ex, ey]], P.tolist())
@@ -635,15 +644,14 @@ def check_bbox_params(res, case, artist, b):
     return True
 
 
-def _call(res, case, fn):
-    """Run one library call; exceptions are violations (every keyword used here is accepted by the artist)."""
+def _call(fn):
+    """Run one library call -> (artist, exception)."""
     try:
         with warnings.catch_warnings():
             warnings.simplefilter('ignore')      # matplotlib warns when color= overrides edgecolor
-            return True, fn()
+            return fn(), None
     except Exception as exc:
-        res.violation(ID, 'unexpected_exception', case, f'{type(exc).__name__}: {exc}', 'an artist', type(exc).__name__)
-        return False, None
+        return None, exc
 
 
 def check_call(res, spec, origin, form, visname, vis, kwname, kw, ndir, Q=None):
@@ -655,7 +663,9 @@ def check_call(res, spec, origin, form, visname, vis, kwname, kw, ndir, Q=None):
     res.evaluations += 1
     if kind == 'bbox':
         from regions import RegionBoundingBox
-        ok, artist = _call(res, case, lambda: RegionBoundingBox(*spec['bbox']).as_artist(**kw))
+
+        def make(k):
+            return RegionBoundingBox(*spec['bbox']).as_artist(**k)
     else:
         s = dict(spec)
         s['visual'] = vis
@@ -664,10 +674,25 @@ def check_call(res, spec, origin, form, visname, vis, kwname, kw, ndir, Q=None):
         except Exception as exc:
             res.violation(ID, 'build_failed', case, f'could not construct region: {type(exc).__name__}: {exc}')
             return
-        ok, artist = _call(res, case, lambda: reg.as_artist(origin=_origin_obj(origin, form), **kw))
+
+        def make(k):
+            return reg.as_artist(origin=_origin_obj(origin, form), **k)
+    artist, exc = _call(lambda: make(kw))
     res.transitions += 1
-    if not ok:
-        res.outcome((cls, 'exception'))
+    if exc is not None:
+        # every keyword used here is accepted by the artist class, so no exception is acceptable.  When the
+        # same call without the caller's kwargs succeeds, the failure is the caller's keyword meeting the
+        # stored visual attribute it should override -> its own kind
+        vkind = 'unexpected_exception'
+        if kw:
+            _, exc0 = _call(lambda: make({}))      # diagnostic only, not counted
+            if exc0 is None:
+                vkind = 'kwarg_override_raises'
+        res.violation(ID, vkind, case,
+                      f'as_artist(**{kw}) on a {cls} region with visual {vis} raised {type(exc).__name__}: {exc}'
+                      + (' (the same call without the kwargs succeeds)' if vkind == 'kwarg_override_raises' else ''),
+                      'an artist', f'{type(exc).__name__}: {exc}')
+        res.outcome((cls, visname, kwname, vkind))
         return
     if kind in ('patch', 'bbox'):
         geo = bbox_spec(spec['bbox']) if kind == 'bbox' else spec
